@@ -56,6 +56,7 @@ class Ctx:
         self.name = name
 
     def point(self, label):
+        """yield point = start of an instruction = boundary between two steps of the abstract machine"""
         if self.sched is not None:
             self.sched.point(self.name, label)
 
@@ -96,27 +97,23 @@ def run_body(ctx, b, regs0, link):
     fr = Frame(list(regs0), link)
     for ins in ctx.bodies[b - 1]:
         op = ins["op"]
+        ctx.point(op)
         if op == "prim":
             fr.regs.append(prim(ctx, ins["p"], [val(fr, r) for r in ins["a"]]))
-            ctx.point("op")
         elif op == "diff":
             at, seed = val(fr, ins["at"]), val(fr, ins["seed"])
 
             def f(y, ins=ins, fr=fr):
                 ctx.ids.append(y._trace if isbox(y) else None)
-                ctx.point("enter")
                 return run_body(ctx, ins["b"], [y], fr)
-            ctx.point("pre-enter")
             if ins["mode"] == "vjp":
                 if ctx.variant % 5 == 3 and seed == 1.0 and not ctx.prog.get("warnerr"):
                     r = grad(f)(at)       # same thing through the public convenience wrapper
                 else:
                     vjp, _v = make_vjp(f)(at)
-                    ctx.point("exit")
                     r = vjp(seed)
             else:
                 _v, r = make_jvp(f)(at)(seed)
-                ctx.point("exit")
             fr.regs.append(r)
         elif op == "try":
             try:
@@ -170,10 +167,12 @@ def run_case(case):
             ctx = Ctx(prog, case.get("variant", 0))
             out["obs"] = [run_thread(ctx, prog["threads"][0])]
             out["ids"] = [[i - (top0 + 1) if i is not None else -99 for i in ctx.ids]]
+            out["sched"] = []
         else:
             from sched import run_threads
             obs, ids = run_threads(case, Ctx, run_thread)
             out["obs"], out["ids"] = obs, ids
+            out["sched"] = case["schedule"]
         out["top_drift"] = trace_stack.top - top0
     return out
 
